@@ -503,6 +503,7 @@ Qed.
 Lemma pause_no_added R q tm : added_of (snd (fst (pause R q tm))) = [].
 Proof.
   unfold pause. destruct tm as [t|]; [|reflexivity].
+  destruct (r_pause_atomic R && (t >? q_samples q)); [reflexivity|].
   destruct (t >? q_samples q); cbn [fst snd]; apply added_of_map_removed.
 Qed.
 
